@@ -333,4 +333,11 @@ theorem depends_on_support_only {W : Type} [Zero W] [DecidableEq W] (x y : Arr W
     funext i j; exact decide_eq_decide.2 (h i j)
   rw [hs.1, hs.2, this]
 
+/-- in particular the support, hence everything computed from the mask, does not depend on the scale of the weights: multiplying a
+weight array by any non-zero factor (nano-scale units, 1e-300, …) leaves the Boolean mask unchanged — no absolute tolerance may enter
+the test `mask ≠ 0` -/
+theorem support_scale_invariant {W : Type} [Field W] [DecidableEq W] (x : Arr W) (k : W) (hk : k ≠ 0) :
+    supportMask ({ s0 := x.s0, s1 := x.s1, get := fun i j => x.get i j * k } : Arr W) = supportMask x :=
+  depends_on_support_only _ x ⟨rfl, rfl⟩ (fun i j => by simp [hk])
+
 end Lentil.C11
